@@ -42,11 +42,11 @@ func CalcImageOffset(image []byte, addr uint64) (uint64, error) {
 
 	// Sometimes the image is just the BIOS region directly.
 	// Let's try to parse the image as BIOS region, and if it works,
-	// then the BIOS region offset is just zero and we can calculate
-	// the `addr` offset as just `consts.BasePhysAddr - addr`.
+	// then the BIOS region offset is just zero and the region ends at the
+	// end of the image, which is mapped to consts.BasePhysAddr.
 	_, biosRegErr := uefi.NewBIOSRegion(image, nil, uefi.RegionTypeBIOS)
 	if biosRegErr == nil {
-		return consts.BasePhysAddr - addr, nil
+		return uint64(len(image)) - consts.BasePhysAddr + addr, nil
 	}
 
 	return math.MaxUint64, fmt.Errorf("ifdErr == %w, cbErr == %v, biosRegErr == %v",
